@@ -583,6 +583,77 @@ def r5_db_row_mapping(ctx):
     else:
         r.ok(k, cfg.loc(back[0].main), "record rebuilt from %s" % sorted(rd), work=1)
 
+    # the text form of the timestamp: the writer's formatter and the reader's
+    # parser are an inverse pair (tabled), so the record comes back with the
+    # time it was appended with
+    PAIRS = {"to_rfc3339": "parse_rfc3339"}
+    def dt_calls(fn):
+        out = []
+        for b, i, t in fn.calls():
+            full = t.get("resolved_full") or t.get("callee_full") or t.get("callee") or ""
+            if "date_time::UtcDateTime::" in full or "OffsetDateTime::" in full:
+                out.append((cname(t), b, i))
+        return out
+    w = [(n, b, i) for n, b, i in dt_calls(new[0]) if n in ("to_rfc3339", "format", "to_string", "to_date", "to_date_time", "unix_timestamp")]
+    rdr = [(n, b, i) for n, b, i in dt_calls(back[0]) if n.startswith("parse") or n.startswith("from_")]
+    k = new[0].root + "|time-text-inverse"
+    wn, rn = {n for n, _b, _i in w}, {n for n, _b, _i in rdr}
+    if not w or not rdr:
+        r.anchor_missing("timestamp formatter in EventRecordRow::new / parser in the conversion back")
+    elif len(wn) == 1 and len(rn) == 1 and PAIRS.get(next(iter(wn))) == next(iter(rn)):
+        r.ok(k, cfg.loc(w[0][1], w[0][2]), "written with %s, parsed with %s" % (sorted(wn), sorted(rn)), work=2)
+    else:
+        r.violation(k, cfg.loc(w[0][1], w[0][2]),
+                    "the event row's timestamp is written with %s but read back with %s, which is not a tabled inverse pair: a record does not come back from the database with the time it was appended with" % (sorted(wn), sorted(rn)),
+                    work=2)
+
+
+INT_BITS = {"i8": 8, "i16": 16, "i32": 32, "i64": 64, "i128": 128, "isize": 64,
+            "u8": 8, "u16": 16, "u32": 32, "u64": 64, "u128": 128, "usize": 64}
+NON_NEGATIVE = {"rem_euclid", "unsigned_abs", "abs", "checked_rem_euclid", "wrapping_rem_euclid"}
+
+
+def r10_encoder_casts(ctx):
+    """An encoder never squeezes a signed quantity into a narrower unsigned
+    field with `as`: negative values wrap and the decoder cannot undo it."""
+    ws = ctx.ws
+    r = ctx.rule("C14-R10", "no encoder casts a signed integer to a narrower unsigned one",
+                 floor=15, kind="K6 lossy-cast")
+    for f in ws.fns.values():
+        if not re.search(r"Encodable for .*>::encode$", f.root):
+            continue
+        for b in f.bodies:
+            defs = None
+            n = 0
+            for bi, blk in enumerate(b.blocks):
+                if blk.get("cleanup"):
+                    continue
+                for st in blk["s"]:
+                    if st["k"] != "cast" or st.get("ck") != "IntToInt":
+                        continue
+                    n += 1
+                    op = st["ops"][0]
+                    src = None
+                    if isinstance(op, str):
+                        m = re.match(r"[mc]?_?(\d+)$", op)
+                        if m and int(m.group(1)) < len(b.locals):
+                            src = b.locals[int(m.group(1))]
+                    dst = st.get("ty")
+                    k = "%s|cast#%d:%s->%s" % (f.root, n, src, dst)
+                    where = "%s:%s" % (b.file, st.get("l"))
+                    if src in INT_BITS and dst in INT_BITS and src.startswith("i") and dst.startswith("u") and INT_BITS[dst] < INT_BITS[src]:
+                        if defs is None:
+                            defs = cfg.defs_of(b)
+                        tree = repr(idioms.expr_tree(b, op, defs))
+                        if any(x in tree for x in NON_NEGATIVE):
+                            r.ok(k, where, "operand is non-negative by construction", work=1)
+                        else:
+                            r.violation(k, where,
+                                        "the encoder casts a signed %s to %s with `as`: a negative value wraps (e.g. a remainder of a pre-epoch timestamp) and the decoder reads back a different value" % (src, dst),
+                                        work=1)
+                    else:
+                        r.ok(k, where, "cast %s -> %s keeps the sign domain" % (src, dst), work=1)
+
 
 def run(ctx):
     ctx.explanation = (
@@ -592,7 +663,7 @@ def run(ctx):
         "Decodable impls, the fields the encoder reads are stored by the decoder; (R3) for each enum with a "
         "From<&T> for uN / TryFrom<uN> for T pair the variant→tag and tag→variant tables extracted from the match arms "
         "are inverse and injective over all variants; (R4) no HashMap/HashSet inside types whose encoding is hashed "
-        "into commits; (R5) event rows map to and from the same record parts; (R8) the variant tables of every pair of enum conversions (domain enum <-> protobuf oneof) are mutually inverse; (R9) every presence flag written by an encoder tests the same Option as the optional payload that follows it. Decides shape/field/tag agreement in "
+        "into commits; (R5) event rows map to and from the same record parts; (R8) the variant tables of every pair of enum conversions (domain enum <-> protobuf oneof) are mutually inverse; (R9) every presence flag written by an encoder tests the same Option as the optional payload that follows it; (R10) no encoder casts a signed integer to a narrower unsigned one; (R5 also) the event row's timestamp is written and parsed by a tabled inverse pair. Decides shape/field/tag agreement in "
         "every branch; value equality (timestamp precision etc.) is not decided.")
     ctx.trust("binary_stream primitive readers/writers are mutually inverse", "prost encode/decode are mutually inverse")
     r1_wire_grammar(ctx)
@@ -604,3 +675,4 @@ def run(ctx):
     r7_wire_bindings(ctx)
     r8_enum_conversions_inverse(ctx)
     r9_presence_flags(ctx)
+    r10_encoder_casts(ctx)
